@@ -447,8 +447,10 @@ func rGenerating(c *Ctx, plugins ...string) {
 				if len(g) == len(r.Registered) {
 					same := true
 					for i := range g {
-						// the registered value itself, or its Underlying() (mutually assignable, so nameOf finds the same entry)
-						if g[i] != r.Registered[i] && !(origin(g[i]) == origin(r.Registered[i])+".Underlying()") {
+						// the registered value itself: the lookup behind Generating matches by assignability, and only for the very
+						// types an entry was registered with is that entry certain to be the one found (identical types are preferred);
+						// for the Underlying() of a defined type every other defined type with that underlying type matches as well
+						if g[i] != r.Registered[i] {
 							same = false
 						}
 					}
@@ -461,7 +463,7 @@ func rGenerating(c *Ctx, plugins ...string) {
 				c.Rep.pass("R-generating")
 			} else {
 				c.Rep.fail(Finding{Rule: "R-generating", Key: fmt.Sprintf("R-generating|%s|nargs=%d", p, r.NArgs), Plugin: p, Script: r.Script,
-					Msg:    fmt.Sprintf("plugin %s: Generate returns success without calling Generating(...) for the types it was asked for: pkg.Generate's work loop cannot terminate", p),
+					Msg:    fmt.Sprintf("plugin %s: Generate returns success without calling Generating(...) for the very types it was asked for (the underlying type of a defined type is not the same entry: with two defined types of one underlying type only one of them is ever marked): pkg.Generate's work loop does not terminate, or generates one function twice and the other never", p),
 					Detail: "abstract path: " + r.describe()})
 			}
 		}
